@@ -5,6 +5,9 @@
 //!   * the frame list / index map `from_keyframes` builds (C01, C08),
 //!   * `value_at` for every admissible (hint, position, flag), with and without a substituted
 //!     start value (C01, C02, C08, C10).
+//! The lookups use ONLY the public API (`from_keyframes`, `override_start_value`, `value_at`,
+//! `Clone`), so this file keeps compiling when private fields are renamed or restructured; the
+//! comparison of the private frame list / index map lives in verif_native_structure.rs.
 //! Bounded (labelled so), used (a) to find a concrete failing input when a Verus obligation fails
 //! or the extracted text no longer type-checks, (b) in the thorough tier as a cross-check of the
 //! specification twin itself.  Child module of `timeline_helpers` (reads the private fields).
@@ -45,8 +48,8 @@ fn ease(tagv: f32, x: f32) -> f32 {
 }
 
 #[derive(Clone, Debug)]
-struct D {
-    v: Option<f32>,
+pub(super) struct D {
+    pub(super) v: Option<f32>,
 }
 
 /// Specification twin: (position, value, easing tag) frames + index map, from the statement.
@@ -148,18 +151,17 @@ fn small_scope_search() {
                     let sub = SubTimeline::from_keyframes(&real_kfs, default_value, |d: &D| d.v, tag(1.0));
                     let (frames, map) = spec(&kfs, default_value, 1.0);
                     lists += 1;
-                    // -- structure
-                    let got_frames: Vec<(f32, f32, f32)> = sub.frames.iter().map(|f| (f.normalized_time, f.value, tag_of(&f.easing))).collect();
-                    assert!(
-                        got_frames == frames && sub.frame_index_map == map && sub.start_frame_override.is_none(),
-                        "from_keyframes disagrees with the specification\n  keyframes (pos, value, easing tag) = {:?}\n  default = {} easing tag 1\n  expected frames = {:?} map = {:?}\n  got      frames = {:?} map = {:?} override = {}",
-                        kfs, default_value, frames, map, got_frames, sub.frame_index_map, sub.start_frame_override.is_some()
-                    );
                     // -- lookups
                     let bt: Vec<f32> = pos.clone();
-                    for with_override in [false, true] {
+                    for ov_mode in 0..3u8 {
+                        // 0: no substituted start value; 1: one override_start_value; 2: two in a row (the
+                        // latest must fully replace the earlier one, C09), applied to a clone (C09: clones agree)
+                        let with_override = ov_mode > 0;
                         let mut s2 = sub.clone();
                         let ov = 77.0f32;
+                        if ov_mode == 2 {
+                            s2.override_start_value(33.0);
+                        }
                         if with_override {
                             s2.override_start_value(ov);
                         }
@@ -201,8 +203,8 @@ fn small_scope_search() {
                                     };
                                     assert!(
                                         ok,
-                                        "value_at disagrees with the specification\n  keyframes (pos, value, easing tag) = {:?}\n  start override = {} flag = {} t = {} hint = {}\n  frames = {:?}\n  admissible = {:?}\n  got = {:?}",
-                                        kfs, with_override, flag, t, hint, frames, admissible, got
+                                        "value_at disagrees with the specification\n  keyframes (pos, value, easing tag) = {:?}\n  start override mode = {} (0 none, 1 once, 2 twice) flag = {} t = {} hint = {}\n  frames = {:?}\n  admissible = {:?}\n  got = {:?}",
+                                        kfs, ov_mode, flag, t, hint, frames, admissible, got
                                     );
                                 }
                             }
@@ -213,4 +215,18 @@ fn small_scope_search() {
         }
     }
     println!("small-scope search: {} keyframe lists, {} lookups, no disagreement", lists, lookups);
+}
+
+// re-exports for the structure half
+pub(super) fn positions_pub(n: usize) -> Vec<Vec<f32>> {
+    positions(n)
+}
+pub(super) fn spec_pub(kfs: &[(f32, Option<f32>, Option<f32>)], default_value: f32, default_tag: f32) -> (Vec<(f32, f32, f32)>, Vec<usize>) {
+    spec(kfs, default_value, default_tag)
+}
+pub(super) fn tag_pub(t: f32) -> Easing {
+    tag(t)
+}
+pub(super) fn tag_of_pub(e: &Easing) -> f32 {
+    tag_of(e)
 }
